@@ -6,6 +6,19 @@ import os
 ROOT = os.path.dirname(os.path.dirname(os.path.abspath(__file__)))
 
 CLAIMED = {
+    "C14": dict(
+        category="model_checking",
+        technique="TLA+ emission model (TLC invariants on every diagnostic list up to a bound) + every list built "
+                  "through the public API and emitted in memory, records parsed and compared + TLC trace validation of "
+                  "binary runs (stderr records vs library diagnostics, totals, summary, exit, escapes)",
+        text="Emitter.tla: the output is the sub-sequence of non-suppressed diagnostics, once each, in order, errors never "
+             "suppressed, totals = numbers shown; checked by TLC on all lists <= 3 (4) over 10 shapes x 4 allow lists x 2 "
+             "formats x colour, each replayed through Diagnostic::new / into_updated / DiagnosticEmitter into memory "
+             "with hostile message text and file names (JSON: exactly five keys per line; human: header, location, notes; "
+             "no escape byte with colours off). 96 runs of the binary (6 programs x format x --disable-color under "
+             "CLICOLOR_FORCE x -A lists) are validated by Trace_Emitter.",
+        note="Snippet geometry belongs to C09. JSON syntax is delegated to serde_json.",
+        design_ref="5 (C14), 4 (Emitter)"),
     "C17": dict(
         category="model_checking",
         technique="TLA+ file-system model (directories, files, symbolic links, dotted and absolute paths) with the "
